@@ -222,6 +222,28 @@ def values(fam):
     raise ValueError(vt)
 
 
+def values2(fam):
+    """A second pair of representable values that are NEARLY equal: they differ only in the high half
+    (64-bit), in a low-order bit below the integer part (float), in the last byte (fs) - a comparison or
+    copy that looks at part of the value only (a prefix, an int conversion) takes them for the same."""
+    vt = fam[1]
+    if vt == 'I':
+        return (7, 7 - 2**31)           # differ in the sign bit only
+    if vt == 'U':
+        return (7, 7 + 2**31)
+    if vt == 'L':
+        return (7, 7 + 2**32)           # equal in the low 32 bits
+    if vt == 'Q':
+        return (7 + 2**63, 7 + 2**63 + 2**32)
+    if vt == 'F':
+        return (0.5, 0.5 + 2.0 ** -20)  # both exact in single precision, same integer part
+    if vt == 'O':
+        return ('value-a', 'value-b')
+    if vt == 's':
+        return (b'aaaaaa', b'aaaaab')   # common 5-byte prefix
+    raise ValueError(vt)
+
+
 def small_values(fam):
     """Values suitable for arithmetic (weights)."""
     vt = fam[1]
